@@ -614,6 +614,39 @@ Proof.
   - apply (exactly_one_b_iff _ _ NoDup_detector_keys). apply exactly_one_built_det; assumption.
 Qed.
 
+(* objects that are given or not: every way of counting is counting presence *)
+Lemma counts_given_ext : forall how keys given,
+  count_sections how keys (given_state given) = count_present keys (present_of given).
+Proof.
+  intros how keys given. unfold count_sections, count_present.
+  rewrite (filter_ext (fun k => counts how (given_state given k)) (present_of given)); [reflexivity|].
+  intro k. unfold given_state. destruct (present_of given k); destruct how; reflexivity.
+Qed.
+
+Theorem built_checks_sound : forall post,
+  checks_ok post = true ->
+  forall given,
+    checks_pass post (given_state given) = true <->
+    exactly_one mode_keys (present_of given) /\ exactly_one detector_keys (present_of given).
+Proof.
+  intros post Hok given. unfold checks_ok in Hok.
+  apply andb_true_iff in Hok. destruct Hok as [Hok Hd].
+  apply andb_true_iff in Hok. destruct Hok as [Hall Hm].
+  set (P := present_of given).
+  rewrite <- (exactly_one_b_iff _ P NoDup_mode_keys).
+  rewrite <- (exactly_one_b_iff _ P NoDup_detector_keys).
+  unfold checks_pass. rewrite forallb_forall in *. split.
+  - intro H. split.
+    + apply existsb_exists in Hm. destruct Hm as [c [Hc Hcm]].
+      rewrite <- (check_is_sound _ c P Hcm). unfold P. rewrite <- (counts_given_ext (pc_how c)). apply H. assumption.
+    + apply existsb_exists in Hd. destruct Hd as [c [Hc Hcd]].
+      rewrite <- (check_is_sound _ c P Hcd). unfold P. rewrite <- (counts_given_ext (pc_how c)). apply H. assumption.
+  - intros [H1 H2] c Hc. rewrite counts_given_ext. fold P. specialize (Hall c Hc). apply orb_true_iff in Hall.
+    destruct Hall as [Hcm|Hcd].
+    + rewrite (check_is_sound _ c P Hcm). assumption.
+    + rewrite (check_is_sound _ c P Hcd). assumption.
+Qed.
+
 (* the section that is used is the one that is present *)
 Lemma first_present_unique : forall keys present k,
   exactly_one keys present ->
